@@ -36,6 +36,8 @@ pub struct Cfg {
     pub warmup: Vec<(u64, [u8; 20])>,
     /// (responder index, size): that responder holds 150 peers and pads its answers to exactly this size
     pub exact_reply: Option<(usize, usize)>,
+    /// the caller drops the search's stream this long after requesting it (0: at once); None: reads it to the end
+    pub drop_stream_ms: Option<u64>,
 }
 
 pub fn searcher_addr(v6: bool) -> SocketAddr {
@@ -102,10 +104,19 @@ pub fn build(cfg: &Cfg) -> (Scenario, Vec<Box<dyn Peer>>) {
     for (k, (t, h)) in cfg.warmup.iter().enumerate() {
         sc.actions.push((When::At(*t), Action::Search { node: 0, info_hash: InfoHash::from(*h), announce: false, tag: format!("warmup{k}") }));
     }
-    sc.actions.push((When::At(cfg.search_at_ms), Action::Search { node: 0, info_hash: InfoHash::from(cfg.info_hash), announce: cfg.announce, tag: "search".into() }));
-    sc.stop_after = vec!["search".into()];
-    sc.linger_ms = 30;
-    sc.horizon_ms = cfg.search_at_ms + 600_000;
+    match cfg.drop_stream_ms {
+        None => {
+            sc.actions.push((When::At(cfg.search_at_ms), Action::Search { node: 0, info_hash: InfoHash::from(cfg.info_hash), announce: cfg.announce, tag: "search".into() }));
+            sc.stop_after = vec!["search".into()];
+            sc.linger_ms = 30;
+            sc.horizon_ms = cfg.search_at_ms + 600_000;
+        }
+        Some(after_ms) => {
+            // nobody watches the search end; lookups in these networks take a few seconds
+            sc.actions.push((When::At(cfg.search_at_ms), Action::SearchDrop { node: 0, info_hash: InfoHash::from(cfg.info_hash), announce: cfg.announce, tag: "search".into(), after_ms }));
+            sc.horizon_ms = cfg.search_at_ms + 60_000;
+        }
+    }
     sc.link_latency = Arc::new(|_, _| 20);
     if !cfg.warmup.is_empty() && std::env::var("VERIF_DEBUG2").is_ok() {
         sc.sample = vec![(0, 30_000, 1_000)];
@@ -125,7 +136,7 @@ pub fn build(cfg: &Cfg) -> (Scenario, Vec<Box<dyn Peer>>) {
 pub fn judge(cfg: &Cfg, res: &RunResult) -> Vec<(String, String)> {
     let mut v = vec![];
     let s = searcher_addr(cfg.v6);
-    if res.finished("search").is_none() {
+    if cfg.drop_stream_ms.is_none() && res.finished("search").is_none() {
         v.push(("search-did-not-end".to_string(), format!("horizon {} ms", res.end_ms)));
         return v;
     }
@@ -161,7 +172,18 @@ pub fn judge(cfg: &Cfg, res: &RunResult) -> Vec<(String, String)> {
     let mut got: Vec<SocketAddr> = res.items("search").into_iter().map(|(_, a)| a).collect();
     got.sort();
     expected_stream.sort();
-    if got != expected_stream {
+    if cfg.drop_stream_ms.is_some() {
+        // a dropped stream yields a prefix of what the answers carried
+        let mut rest = expected_stream.clone();
+        for g in &got {
+            match rest.iter().position(|x| x == g) {
+                Some(i) => {
+                    rest.remove(i);
+                }
+                None => v.push(("stream-yields-address-no-answer-carried".to_string(), format!("{g}"))),
+            }
+        }
+    } else if got != expected_stream {
         v.push((
             "stream-differs-from-values-received".to_string(),
             format!("stream yields {} addresses {:?}, answers carried {} {:?}", got.len(), &got[..got.len().min(6)], expected_stream.len(), &expected_stream[..expected_stream.len().min(6)]),
@@ -237,7 +259,7 @@ fn token_of(i: usize, id: &[u8; 20]) -> Vec<u8> {
 
 fn cfg_json(c: &Cfg) -> Value {
     json!({"ids": c.ids.iter().map(|i| hex(i)).collect::<Vec<_>>(), "searcher_id": hex(&c.searcher_id), "info_hash": hex(&c.info_hash), "contacts": c.contacts,
-        "read_only": c.read_only, "port": c.port, "announce": c.announce, "peer_sets": c.peer_sets, "name_searcher": c.name_searcher, "v6": c.v6, "rng_seed": c.rng_seed, "search_at_ms": c.search_at_ms, "exact_reply": c.exact_reply.map(|(a, b)| json!([a, b])), "warmup": c.warmup.iter().map(|(t, h)| json!([t, hex(h)])).collect::<Vec<_>>()})
+        "read_only": c.read_only, "port": c.port, "announce": c.announce, "peer_sets": c.peer_sets, "name_searcher": c.name_searcher, "v6": c.v6, "rng_seed": c.rng_seed, "search_at_ms": c.search_at_ms, "exact_reply": c.exact_reply.map(|(a, b)| json!([a, b])), "drop_stream_ms": c.drop_stream_ms, "warmup": c.warmup.iter().map(|(t, h)| json!([t, hex(h)])).collect::<Vec<_>>()})
 }
 fn arr20(s: &str) -> [u8; 20] {
     let v = unhex(s);
@@ -260,6 +282,7 @@ fn cfg_parse(v: &Value) -> Cfg {
         rng_seed: v["rng_seed"].as_u64().unwrap_or(1),
         search_at_ms: v["search_at_ms"].as_u64().unwrap_or(T_SEARCH),
         exact_reply: v["exact_reply"].as_array().map(|a| (a[0].as_u64().unwrap() as usize, a[1].as_u64().unwrap() as usize)),
+        drop_stream_ms: v["drop_stream_ms"].as_u64(),
         warmup: v["warmup"].as_array().map(|a| a.iter().map(|w| (w[0].as_u64().unwrap(), arr20(w[1].as_str().unwrap()))).collect()).unwrap_or_default(),
     }
 }
@@ -337,7 +360,7 @@ pub fn structured(kind: u8, n: usize, seed: u64) -> Cfg {
     }
     ids.sort();
     ids.dedup();
-    Cfg { ids, searcher_id, info_hash, contacts: vec![0], read_only: true, port: None, announce: true, peer_sets: 2, name_searcher: false, v6: false, rng_seed: 1 + seed, search_at_ms: T_SEARCH, warmup: vec![], exact_reply: None }
+    Cfg { ids, searcher_id, info_hash, contacts: vec![0], read_only: true, port: None, announce: true, peer_sets: 2, name_searcher: false, v6: false, rng_seed: 1 + seed, search_at_ms: T_SEARCH, warmup: vec![], exact_reply: None, drop_stream_ms: None }
 }
 
 pub fn run(tier: Tier) -> Report {
@@ -368,7 +391,7 @@ pub fn run(tier: Tier) -> Report {
                     1 => ids[ids.len() / 2],
                     _ => *sid,
                 };
-                l1.push(Cfg { ids: ids.clone(), searcher_id: *sid, info_hash: ih, contacts: vec![0], read_only: true, port: None, announce: true, peer_sets: 2, name_searcher: false, v6: false, rng_seed: 1 + seed, search_at_ms: T_SEARCH, warmup: vec![], exact_reply: None });
+                l1.push(Cfg { ids: ids.clone(), searcher_id: *sid, info_hash: ih, contacts: vec![0], read_only: true, port: None, announce: true, peer_sets: 2, name_searcher: false, v6: false, rng_seed: 1 + seed, search_at_ms: T_SEARCH, warmup: vec![], exact_reply: None, drop_stream_ms: None });
             }
         }
     }
@@ -392,7 +415,7 @@ pub fn run(tier: Tier) -> Report {
                                 if v6 && (peer_sets == 0 || !read_only) {
                                     continue;
                                 }
-                                l3.push(Cfg { ids: ids.clone(), searcher_id: far, info_hash: ih, contacts: contacts.clone(), read_only, port, announce, peer_sets, name_searcher, v6, rng_seed: 1 + seed, search_at_ms: T_SEARCH, warmup: vec![], exact_reply: None });
+                                l3.push(Cfg { ids: ids.clone(), searcher_id: far, info_hash: ih, contacts: contacts.clone(), read_only, port, announce, peer_sets, name_searcher, v6, rng_seed: 1 + seed, search_at_ms: T_SEARCH, warmup: vec![], exact_reply: None, drop_stream_ms: None });
                             }
                         }
                     }
@@ -409,6 +432,28 @@ pub fn run(tier: Tier) -> Report {
             c.port = Some(999);
             c.read_only = false;
             big.push(c);
+        }
+    }
+    // the application does not read the stream (announce only): dropped at once / after 60 ms / after 500 ms
+    let mut dropped: Vec<Cfg> = vec![];
+    for n in [30usize, 200] {
+        for kind in 0..3u8 {
+            for after in [0u64, 60, 500] {
+                let mut c = structured(kind, n, seed + 2);
+                c.peer_sets = 2;
+                c.announce = true;
+                c.drop_stream_ms = Some(after);
+                dropped.push(c);
+            }
+        }
+    }
+    for (i, c) in l1.iter().enumerate() {
+        if i % tier.pick(9, 2) == 0 {
+            let mut c = c.clone();
+            c.peer_sets = 2;
+            c.announce = true;
+            c.drop_stream_ms = Some([0u64, 60, 500][i % 3]);
+            dropped.push(c);
         }
     }
     // stale bucket: the 8 entries of the target's bucket turn questionable (15 min after their last
@@ -442,7 +487,7 @@ pub fn run(tier: Tier) -> Report {
         let step = tier.pick(500u64, 100u64);
         let mut t = 999_000u64;
         while t <= 1_008_000 {
-            stale.push(Cfg { ids: ids.clone(), searcher_id: sid, info_hash: target, contacts: vec![8, 9, 10, 0, 1], read_only: true, port: None, announce: true, peer_sets: 0, name_searcher: false, v6: false, rng_seed: 1 + seed, search_at_ms: t, warmup: vec![(100_000, far_hash), (300_000, near)], exact_reply: None });
+            stale.push(Cfg { ids: ids.clone(), searcher_id: sid, info_hash: target, contacts: vec![8, 9, 10, 0, 1], read_only: true, port: None, announce: true, peer_sets: 0, name_searcher: false, v6: false, rng_seed: 1 + seed, search_at_ms: t, warmup: vec![(100_000, far_hash), (300_000, near)], exact_reply: None, drop_stream_ms: None });
             t += step;
         }
     }
@@ -453,13 +498,13 @@ pub fn run(tier: Tier) -> Report {
         let ih = prefix_id(0, 4, 0x12);
         for size in [1400usize, 1493, 1498, 1499, 1500] {
             for who in [1usize, 6] {
-                exact.push(Cfg { ids: ids.clone(), searcher_id: far, info_hash: ih, contacts: vec![9], read_only: true, port: None, announce: true, peer_sets: 0, name_searcher: false, v6: false, rng_seed: 1 + seed, search_at_ms: T_SEARCH, warmup: vec![], exact_reply: Some((who, size)) });
+                exact.push(Cfg { ids: ids.clone(), searcher_id: far, info_hash: ih, contacts: vec![9], read_only: true, port: None, announce: true, peer_sets: 0, name_searcher: false, v6: false, rng_seed: 1 + seed, search_at_ms: T_SEARCH, warmup: vec![], exact_reply: Some((who, size)), drop_stream_ms: None });
             }
         }
     }
     let mut distinct = std::collections::HashSet::new();
     let mut runs = 0u64;
-    for (name, set) in [("L1", &l1), ("L3", &l3), ("large", &big), ("stale-bucket", &stale), ("exact-size-answers", &exact)] {
+    for (name, set) in [("L1", &l1), ("L3", &l3), ("large", &big), ("stale-bucket", &stale), ("exact-size-answers", &exact), ("dropped-stream", &dropped)] {
         let outs = par_map(set, |_, cfg| {
             let (res, viol, _) = run_cfg(cfg, &[None], &[]);
             let announces = res.wire.iter().filter(|d| d.from_real && krpc::parse(&d.bytes).is_query("announce_peer")).count() as u64;
@@ -496,7 +541,7 @@ pub fn run(tier: Tier) -> Report {
     for t in tops.iter().filter(|t| t.len() >= 2 && (tier == Tier::Quick || t.len() <= 4)) {
         let ids: Vec<[u8; 20]> = t.iter().map(|i| uni[*i]).collect();
         for (sid, ih) in [(far, prefix_id(0, bits, 0x11)), (prefix_id(2, bits, 0x99), prefix_id(5, bits, 0x33)), (far, ids[0])] {
-            l2.push(Cfg { ids: ids.clone(), searcher_id: sid, info_hash: ih, contacts: vec![ids.len() - 1], read_only: true, port: Some(1234), announce: true, peer_sets: 1, name_searcher: false, v6: false, rng_seed: 1 + seed, search_at_ms: T_SEARCH, warmup: vec![], exact_reply: None });
+            l2.push(Cfg { ids: ids.clone(), searcher_id: sid, info_hash: ih, contacts: vec![ids.len() - 1], read_only: true, port: Some(1234), announce: true, peer_sets: 1, name_searcher: false, v6: false, rng_seed: 1 + seed, search_at_ms: T_SEARCH, warmup: vec![], exact_reply: None, drop_stream_ms: None });
         }
     }
     if tier == Tier::Quick {
